@@ -642,11 +642,11 @@ def classify_gauss2d(case):
 
 
 SUBCHECKS = [
-    Subcheck("rule", rule_cases, check_rule, classify_rule, quick=2000, thorough=60000,
+    Subcheck("rule", rule_cases, check_rule, classify_rule, quick=4000, thorough=60000,
              exhaustive=rule_exhaustive, exhaustive_tiers=("quick", "thorough")),
-    Subcheck("exact", exact_cases, check_exact, classify_exact, quick=1500, thorough=40000),
-    Subcheck("func", func_cases, check_func, classify_func, quick=1500, thorough=25000),
-    Subcheck("data", data_cases, check_data, classify_data, quick=1200, thorough=20000),
-    Subcheck("history", history_cases, check_history, classify_history, quick=600, thorough=10000),
-    Subcheck("gauss2d", gauss2d_cases, check_gauss2d, classify_gauss2d, quick=800, thorough=15000),
+    Subcheck("exact", exact_cases, check_exact, classify_exact, quick=3000, thorough=40000),
+    Subcheck("func", func_cases, check_func, classify_func, quick=3000, thorough=25000),
+    Subcheck("data", data_cases, check_data, classify_data, quick=2400, thorough=20000),
+    Subcheck("history", history_cases, check_history, classify_history, quick=1200, thorough=10000),
+    Subcheck("gauss2d", gauss2d_cases, check_gauss2d, classify_gauss2d, quick=1600, thorough=15000),
 ]
